@@ -217,7 +217,9 @@ def migration2(tdset):
       views_to_table[s.parentId] = s.tableRef
 
   def create_primary_views_action(primary_views):
-    row_ids = sorted(primary_views.keys())
+    # A section may have an unset tableRef (0); there is no table record to update for it.
+    table_refs = set(tdset.all_tables['_grist_Tables'].row_ids)
+    row_ids = sorted(r for r in primary_views.keys() if r in table_refs)
     values = {'primaryViewId': [primary_views[r] for r in row_ids]}
     return actions.BulkUpdateRecord('_grist_Tables', row_ids, values)
 
